@@ -225,6 +225,10 @@ def spell_zone(rng, mz, kind):
     last_owner = None
     last_ttl = None
     cur_origin = None
+    if kind == "inherited-ttl":
+        # no $TTL and the SOA comes last, so no default TTL is ever in force: a record without a TTL takes the last TTL
+        # that was written explicitly -- whichever of the two field orders that record used
+        recs = [r for r in recs if r[3] != "SOA"] + [r for r in recs if r[3] == "SOA"]
     for exact, ttl, rd, tt in recs:
         ot = owner_text(exact)
         if kind == "origin-switch":
@@ -264,10 +268,10 @@ def spell_zone(rng, mz, kind):
             omit_ttl = True
         if use_soa_default and (tt == "SOA" and ttl == soa_min or (tt != "SOA" and ttl == soa_min and rng.random() < 0.8)):
             omit_ttl = True
-        if kind == "inherited-ttl" and last_ttl == ttl and default_ttl is None and not use_soa_default and rng.random() < 0.0:
+        if kind == "inherited-ttl" and last_ttl == ttl and tt != "SOA" and rng.random() < 0.7:
             omit_ttl = True
         omit_class = kind in ("inherited-class", "mixed") and rng.random() < 0.6
-        order = rng.choice(("ttl-class", "class-ttl")) if kind in ("class-ttl-order", "mixed") else "ttl-class"
+        order = rng.choice(("ttl-class", "class-ttl")) if kind in ("class-ttl-order", "mixed", "inherited-ttl") else "ttl-class"
         mid = []
         if order == "ttl-class":
             if not omit_ttl:
@@ -290,7 +294,8 @@ def spell_zone(rng, mz, kind):
                 lines.append("; full-line comment")
                 lines.append("")
         lines.append(line)
-        last_ttl = ttl
+        if not omit_ttl:
+            last_ttl = ttl  # the last TTL written explicitly
     return "\n".join(lines) + "\n"
 
 
@@ -331,6 +336,14 @@ def generate_case(rng):
         rhs, rf = "target${1,3}.example.", lambda i: f"target{fmt_index(i + 1, 'd', 3)}.example."
     else:
         rhs, rf = "p$.other.", lambda i: f"p{i}.other."
+    if rng.random() < 0.35:
+        # the iterator mentioned more than once on a side: every mention is substituted
+        if rt in ("CNAME", "PTR"):
+            rhs, rf = "srv$.rack$.dc$.example.", lambda i: f"srv{i}.rack{i}.dc{i}.example."
+        elif rt == "A":
+            rt, rhs, rf = "TXT", "unit-$-of-$", lambda i: f"unit-{i}-of-{i}"
+        if lmod == "plain" and rng.random() < 0.5:
+            lhs, lf = "host$-$", lambda i: f"host{i}-{i}"
     ttl = rng.choice(("300", "", "1h"))
     cls = rng.choice(("IN", ""))
     gen = " ".join(x for x in ("$GENERATE", rng_text, lhs, ttl, cls, rt, rhs) if x)
@@ -348,7 +361,7 @@ def check_respellings(ctx, rng, mz):
     z = GZ.build_lib_zone(mz, relativize, zone_factory=factory)
     want = GZ.content_of_lib_zone(z)
     for kind in ("plain", "origin-relative", "inherited-owner", "ttl-directive", "soa-minimum-default", "inherited-class", "class-ttl-order", "mnemonic-case", "generic-mnemonics", "ttl-units",
-                 "parenthesised", "comments", "origin-switch", "mixed"):
+                 "parenthesised", "comments", "origin-switch", "inherited-ttl", "mixed"):
         ctx.count("mon.respelling")
         text = spell_zone(rng, mz, kind)
         case = {"kind": "respell", "spelling": kind, "zone": zname, "relativize": relativize, "text": text[:3000]}
@@ -375,7 +388,7 @@ def check_respellings(ctx, rng, mz):
         block = [noise] + [rng.choice((" ", "\t", "      ")) + rng.choice(('300 IN TXT "continuation"', "IN 60 A 192.0.2.9", "60 IN MX 5 mail.invalid.", "IN AAAA 2001:db8::9", "77 TXT \"c\""))
                            for _ in range(rng.choice((0, 1, 1, 2, 3)))]
         starts = [i for i, l in enumerate(lines) if l and l[0] not in " \t$;"]
-        if kind in ("parenthesised", "comments", "soa-minimum-default") or not starts or rng.random() < 0.25:
+        if kind in ("parenthesised", "comments", "soa-minimum-default", "inherited-ttl") or not starts or rng.random() < 0.25:
             text3 = text + "\n".join(block) + "\n"  # (kinds where a line may sit inside parentheses, or omit its TTL without a $TTL in force)
         else:
             pos = rng.choice(starts)
